@@ -210,7 +210,7 @@ CONFIG = {
         "Lstat checks of the store (resolveRelToBase's parent loop, ensureDirNoSymlink, removeSymlink, the Lstat before Chtimes) are modelled as look-ups at the lexical location; the mutating system calls (mkdir, open, link, symlink, unlink, chmod, utimes) as kernel walks; their agreement is proved where used (walk_lex / walk_real) and exercised by the correspondence run",
         "path/filepath (Clean, Join, Rel, Dir, IsAbs, Abs) hand-modelled on component lists (lc / rel_under), Unix separators only (no Windows volume/backslash semantics); archive/tar and compress/gzip are abstracted to an entry list (PAX headers, short names; no USTAR prefix split, GNU long names, sparse or global headers); os.CreateTemp (temp files in TMPDIR are outside the statement) not modelled; path components > 255 bytes (ENAMETOOLONG) and chains of more than 40 links / 3000 walk steps are rejected by the code resp. the model as errors and not compared",
         "times: the model records the time last set explicitly with utimes (os.Chtimes) per file inode / directory and the view contains it; implicit updates of times by writes are not modelled, so the correspondence compares times only for objects outside the working directory (where nothing may change); the snapshot oracle compares the real modification time of every outside object",
-        "permission bits are modelled (umask 022, Mkdir/OpenFile creation modes, os.Chmod under PreservePermissions, narrowing of the unpack directory) for modes <= 0777; ownership and setuid/setgid/sticky bits are not modelled or generated",
+        "permission bits are modelled (umask 022, Mkdir/OpenFile creation modes, directories created with mode|0700 and their recorded modes applied after the last entry of a successful extraction (restoreDirModes: exact with PreservePermissions, else narrowing), os.Chmod of regular files under PreservePermissions) for modes <= 0777; ownership and setuid/setgid/sticky bits are not modelled or generated",
         "Inv hypothesis (C11_confined_partial): the working directory exists and it and its ancestors are real directories; files below it share no inode with the outside. Nothing is assumed about symbolic links below the working directory. Excluded and covered otherwise: (a) working directory missing - modelled (MkdirAll(base)) and compared, its creation and the parent's modification time are the store's own; (b) working directory being / opened through a symbolic link - oracle only, judged at the physical location (model prints UNJUDGED); (c) pre-populated hard links to outside files - known finding shared-inode-*, C11_shared_inode_refuted",
         "the working directory's own mode and times are the store's (inside wd wd = true; title '.' with a directory entry '.' chmods it; the snapshot ignores its mode and times) - its entry in the parent (existence, type, identity) is not: C11_working_directory_kept",
         "pushes of manifests (restoreDuplicates re-pushes the named layers whose content the store holds) are driven by the harness and judged by the oracle only (model prints UNJUDGED); content that fails verification is modelled for named blobs (file written, then removed); truncated gzip / malformed tar are not generated (an archive that fails after k entries behaves like an entry that fails)",
